@@ -9,6 +9,19 @@ CHECKS = {
   text="Lean 4 theorems, parametric in the prf: prf+ as coded (loop shape, counter start and operand order extracted from crypto.py) equals the RFC 7296 2.13 stream T1|T2|... for every key, seed and output length up to 255 blocks and raises beyond; SKEYSEED and the seven SK_* (initial and rekey), CHILD KEYMAT with/without g^ir equal the RFC split for all nonces/SPIs/secrets and all size triples, where the split template, argument order and keymat-slot to Keyring-field data flow are regenerated from ikesa.py on every run; algorithm size tables, the five MODP primes (= RFC 3526 formula by kernel evaluation), generator, hex widths and the RFC 5903 curve table are compared by `decide`; MODP agreement (g^a)^b = (g^b)^a proved. Model validated differentially (Lean SHA-1/256/512 + HMAC driver vs the real Prf/IkeSa.generate_*_key_material/DiffieHellman).",
   note="Trusted: Lean kernel, extract/ (gen_crypto.py), the prf as an uninterpreted function of fixed output length in the theorems (HMAC itself is validated only differentially), OpenSSL for curve arithmetic. Primality of the MODP constants is not proved. piBits literal is recomputed only when mpmath is available.",
   technique="Lean 4 proof (loop invariant for prf+, list algebra for the key split interpreted from extracted data flow, decide +kernel for constants) + differential correspondence", ref="DESIGN.md §5 C04"),
+ 'C08': dict(
+  text="Lean 4 theorems over the executable shell model of ikesa.py (process_message, _process_request, _process_response, timers), for EVERY instance of the delegated per-exchange handlers: a copy of the previous request returns the stored response and changes nothing but the liveness timer; any other ID is dropped without effect; the expected request is executed exactly once, the counter advances and the reply is cached; a response is accepted only for the outstanding ID, which is consumed before the handler runs; wrong initiator flag / foreign SPIs are dropped; and for every input history whatsoever (any duplication, reordering, loss) the IDs of executed requests are strictly increasing, hence each is executed at most once (induction over the history, under the frame condition that handlers do not write the peer counter). Retransmission re-emits the stored request; the shell's error reply carries version 2.0, the SPIs, exchange type, flags and ID. The model is tied to the code by replaying every iteration of the real event loop (real main_loop on a fake OS) on the compiled model with the recorded handler outcomes and comparing the complete post-state; the property is also evaluated directly on the real code after every event of seeded schedules.",
+  note="Trusted: Lean kernel; the shell model as transcription of ikesa.py/ikesacontroller.py control flow (validated by the per-iteration replay: table, every IKE_SA field, datagrams, netlink requests); the frame condition PeerFrame (handlers never assign peer_msg_id) is checked on the real code by the executed-ID oracle, not proved of the Python handlers. Header fields of messages built inside the handlers (generate_request/response) and ID consecutiveness are checked by the oracle on every emitted datagram, not proved.",
+  technique="Lean 4 proof (decision logic + induction over input histories with a monotone-counter invariant) + per-iteration replay correspondence + oracle on seeded schedules", ref="DESIGN.md §5 C08"),
+ 'C10': dict(
+  text="Lean 4 theorems over the shell/controller model, for every handler instance: removing an IKE_SA (delete exchange, fatal error, retransmission time-out sweep) issues DELSA for exactly the outbound and inbound SA of every tracked CHILD_SA, in order, and nothing else; applied to any SAD this removes exactly those entries and leaves every other entry; registering a rekeyed successor issues no netlink request and does not touch CHILD_SA lists; the retransmission timer alone never touches CHILD_SAs or the kernel. The per-exchange part (a handler installs exactly what it starts tracking) is stated as the contract installsWhatItTracks and evaluated on the real code: after EVERY event of every seeded history (all negotiation paths, collisions, losses, time-outs, INVALID_KE retries, IKE rekeys) the model kernel's SAD equals the SAs of the tracked CHILD_SAs, with a kernel refusal injected at individual NEWSA requests.",
+  note="Trusted: Lean kernel; shell model validated by per-iteration replay; model kernel semantics (NEWSA of a present key / DELSA of an absent key refused). The SAD invariant across handlers is an oracle result on explored histories, not a theorem (handlers are parameters of the model). Two genuine defects found by this check were repaired in /repo (see known_findings.json).",
+  technique="Lean 4 proof (list algebra over netlink request lists) + per-iteration replay correspondence + SAD = tracked oracle after every event with kernel fault injection", ref="DESIGN.md §5 C10"),
+ 'C16': dict(
+  text="Lean 4 theorems over the controller model, for every handler instance: a datagram that is not an IKE_SA_INIT request is handed to the first IKE_SA whose local SPI equals the header SPI selected by the initiator flag and every other table entry is left exactly as it was; unknown SPIs change nothing and elicit nothing; an IKE_SA_INIT request appends a fresh responder IKE_SA (none without configuration); an IKE_SA that reaches DELETED is removed in the same step together with DELSA for its pairs; a successor is registered at most once however many further datagrams reach the rekeyed IKE_SA; expiry notices for untracked SPIs do nothing; the status query returns the table. Tied to the code by per-iteration replay; oracle on the real code after every event: routing, no duplicates, no DELETED entries, successor registered, status = table, swapped / unknown / flag-flipped SPI games, every duplication pattern of the rekey messages.",
+  note="Trusted: Lean kernel; controller model validated by replay; IKE SPIs unique per object (fresh 64-bit draws). One genuine defect (successor listed again on every further datagram) was repaired in /repo.",
+  technique="Lean 4 proof (list lemmas on findIdx?/set/eraseIdx, decision logic) + per-iteration replay correspondence + oracle on seeded schedules", ref="DESIGN.md §5 C16"),
+
  'C11': dict(
   text="Lean 4 theorems over the executable negotiation model, for all proposals of any size: the intersection lies within both offers (type, id, key length), has exactly one transform per locally required type, chosen in local preference order, carries the peer's number/SPI; none iff protocols differ or a required type has no common transform; the first acceptable peer proposal is answered else NO_PROPOSAL_CHOSEN; initiator accepts only responses drawn from its offer; KE group mismatch names the chosen group; a never-offered suggested group is refused. Model validated differentially against Proposal.intersection/is_subset/__eq__, IkeSa._select_best_sa_proposal and handle_invalid_ke on exhaustive small universes and random larger ones.",
   note="Trusted: Lean kernel, extract/, Transform.__eq__ (hash of a 3-tuple) modelled as structural equality; the placement of the negotiation calls inside the IKE_SA handlers is covered by the state-machine checks, not here.",
